@@ -18,6 +18,16 @@ honest cases (kex x host key algorithm x 0..3 rekeys started by either side):
     string it sent. Uncompressed: everything above. Compressed (optional in RFC 5656): completion is
     not demanded, but every exchange hash the client computed must be the server's (= the RFC hash
     of the wire octets), and if the session completes everything above holds as well.
+  * configuration of the honest sessions: IDENTIFICATION STRINGS (V_C, V_S enter H in full, RFC 4253 8): each side
+    sends paramiko's default or a drawn `SSH-2.0-software[ SP comment]` line (server also SSH-1.99-; comment of
+    printable ASCII, may contain spaces and '-', total <= 253 characters), set through `Transport.local_version`;
+    the reference hash uses the lines as they appear on the wire. PREFERENCE CHANGES BETWEEN EXCHANGES ("plan"
+    sessions): the server holds one key of every type and a moduli pack, the client starts with (kex, host key
+    algorithm) in front of its full SecurityOptions lists and before each re-exchange moves another drawn pair to
+    the front ("front": the previous choice stays on the list) or keeps only that pair ("only"), optionally the
+    server drops the previously agreed host key algorithm from its list. The kex method and host key algorithm
+    of every exchange are then derived from the two KEXINITs of THAT exchange as decoded from the wire (first
+    client name the server lists), and H / signature algorithm / host key are checked against them.
 fault cases: ONE alteration of the server's reply in exchange number k = 1 + len(rekeys), k in 1..3,
   after k-1 honest exchanges (initiator drawn per exchange). k = 1: `PlainMitm` edits the plaintext
   reply on the link. k >= 2 (encrypted traffic): the non-tested server is a `lying.EditingServer`
@@ -48,7 +58,10 @@ PROPERTY = "C06"
 LEVEL = "exploration"
 RULE = (
     "kex method (10) x host key algorithm (7) forced via disabled_algorithms; honest sessions with 0..3 re-exchanges "
-    "(initiator drawn per rekey; ECDH-NIST also against a reference server sending Q_S uncompressed / compressed); fault "
+    "(initiator drawn per rekey; ECDH-NIST also against a reference server sending Q_S uncompressed / compressed) x identification "
+    "strings (default / drawn software version with or without a comment, per side) x preference plan (none, or before each "
+    "re-exchange another (kex, host key algorithm) pair moved to the front of / left alone on the client's lists, server optionally "
+    "dropping the previous host key algorithm; per-exchange expectations derived from the KEXINITs on the wire); fault "
     "sessions = one alteration of the server's reply in exchange k = 1..3 after k-1 honest exchanges (k = 1 by a link MITM, "
     "k >= 2 inside the non-tested server before encryption): bit flip at a drawn position of K_S / signature / Q_S or f, "
     "substituted f / Q_S / signature algorithm name / host key / gex p,g, replayed earlier reply, equivalent re-encoding of "
@@ -87,13 +100,53 @@ def _pack(kex):
     return mitm.modulus_pack([])
 
 
+ALLHOSTKEYS = ("rsa2048", "ecdsa256", "ecdsa384", "ecdsa521", "ed25519")
+KEYFORALG = dict(HOSTALG, **{"rsa-sha2-512": "rsa2048"})  # plan sessions: one key per type
+
+
+def _front(universe, first, mode):
+    return [first] if mode == "only" else [first] + [a for a in universe if a != first]
+
+
+def _apply_plan_step(tc, ts, step, prev_hostalg):
+    """Documented way to change preferences of a live Transport: SecurityOptions."""
+    so = tc.get_security_options()
+    mode = step.get("mode", "front")
+    if step.get("kex"):
+        so.kex = _front(KEXES, step["kex"], mode)
+    if step.get("hostalg"):
+        so.key_types = _front(ALLKEYALGS, step["hostalg"], mode)
+    if step.get("sdrop") and prev_hostalg and prev_hostalg != step.get("hostalg"):
+        sso = ts.get_security_options()
+        left = [a for a in sso.key_types if a != prev_hostalg]
+        if left:
+            sso.key_types = left
+
+
+def _wire_choice(c_kexinit, s_kexinit):
+    """(kex, host key algorithm) RFC 4253 7.1 gives for these two KEXINIT payloads."""
+    ci, si = mitm.parse_kexinit(c_kexinit), mitm.parse_kexinit(s_kexinit)
+    kex = next((n for n in ci["kex"] if n in si["kex"] and not mitm.is_pseudo(n)), None)
+    hk = next((n for n in ci["hostkey"] if n in si["hostkey"]), None)
+    return kex, hk
+
+
+IDENT_SOFT = "ABCDEFGHIJKLMNOPQRSTUVWXYZabcdefghijklmnopqrstuvwxyz0123456789_.+"
+IDENT_COMMENT = "".join(chr(c) for c in range(0x20, 0x7F))
+
 # ----------------------------------------------------------------------------- honest sessions
 
 
 def _norm_honest(case):
     """The "server" dimension only exists for ECDH-NIST; drop it elsewhere so that equal sessions
     count as one case."""
-    if case.get("server", "paramiko") != "paramiko" and case["kex"] in CURVES:
+    case = {k: v for k, v in case.items() if not (k in ("ident", "plan") and not v)}
+    if case.get("ident") and not (case["ident"].get("c") or case["ident"].get("s")):
+        del case["ident"]
+    if case.get("plan"):
+        case["plan"] = [dict(st_ or {}) for st_ in case["plan"]][: len(case["rekeys"])]
+    curves_used = [case["kex"]] + [st_.get("kex") for st_ in case.get("plan") or []]
+    if case.get("server", "paramiko") != "paramiko" and any(k in CURVES for k in curves_used):
         return case
     return {k: v for k, v in case.items() if k != "server"}
 
@@ -114,18 +167,42 @@ def run_honest(ctx, case):
     case = _norm_honest(case)
     kex, hostalg, rekeys = case["kex"], case["hostalg"], list(case["rekeys"])
     server = case.get("server", "paramiko")
+    ident = case.get("ident") or {}
+    plan = case.get("plan")  # None: one (kex, host key algorithm) forced for the whole session
+    multi = plan is not None
     optional = server == "ref-compressed"  # point compression MAY be used: completion is not demanded
     cls = ["honest", "kex:" + kex, "hostalg:" + hostalg, "rekeys:%d" % len(rekeys)]
     if server != "paramiko":
         cls.append("server:" + server)
-    ctx.case(case, len(rekeys) >= 1 or server != "paramiko", cls)
+    for side in ("c", "s"):
+        v = ident.get(side)
+        cls.append("ident-%s:%s" % (side, "default" if not v else "with-comment" if " " in v else "custom-no-comment"))
+    if multi:
+        cls.append("plan:preferences-changed-before-%d-of-%d-re-exchanges" % (sum(1 for st_ in plan if st_), len(rekeys)))
+        for st_ in plan:
+            if st_:
+                cls.append("plan-step:%s%s%s" % (st_.get("mode", "front"), ":hostalg" if st_.get("hostalg") else "", ":kex" if st_.get("kex") else "") + (":server-drops-previous" if st_.get("sdrop") else ""))
+    ctx.case(case, len(rekeys) >= 1 or server != "paramiko" or bool(ident), cls)
     bucket = "%s/%s" % (mitm.kex_family(kex), hostalg)
-    with _pack(kex):
-        if server == "paramiko":
-            link, tc, ts = _pair(kex, hostalg)
+    if multi:
+        bucket += ":plan"
+    if any(" " in (ident.get(x) or "") for x in "cs"):
+        bucket += ":ident-comment"
+    with (mitm.modulus_pack([(2, mitm.group_prime(1024))]) if multi else _pack(kex)):
+        scls = peers.VTransport if server == "paramiko" else lying.EditingServer
+        if multi:
+            link, tc, ts = peers.make_pair(server_cls=scls, host_keys=ALLHOSTKEYS)
+            so = tc.get_security_options()
+            so.kex = _front(KEXES, kex, "front")
+            so.key_types = _front(ALLKEYALGS, hostalg, "front")
         else:
-            link, tc, ts = _pair(kex, hostalg, server_cls=lying.EditingServer)
-            ts.v_install_engines({kex: lying.ref_ecdh_server(kex, server[4:])})
+            link, tc, ts = _pair(kex, hostalg, server_cls=scls)
+        if server != "paramiko":
+            ts.v_install_engines({k: lying.ref_ecdh_server(k, server[4:]) for k in (CURVES if multi else [kex])})
+        if ident.get("c"):
+            tc.local_version = ident["c"]
+        if ident.get("s"):
+            ts.local_version = ident["s"]
         try:
             ce, se = peers.start_both(tc, ts, timeout=60.0)
             if ce or se:
@@ -138,6 +215,8 @@ def run_honest(ctx, case):
             tc.auth_password("u", "pw")
             for k, who in enumerate(rekeys):
                 try:
+                    if multi and k < len(plan) and plan[k]:
+                        _apply_plan_step(tc, ts, plan[k], tc.host_key_type)
                     # (a round trip after each exchange makes sure the other side switched too and
                     # gives the Tap a packet after NEWKEYS in both directions)
                     lying.rekey_prefix(tc, ts, [who], first=2 + k)
@@ -145,7 +224,7 @@ def run_honest(ctx, case):
                     if optional:
                         ctx.count("server:ref-compressed:re-exchange-refused")
                         return _partial_agreement(ctx, case, bucket, list(tc.v_kh), list(ts.v_kh))
-                    ctx.violation("rekey-completes", "%s:%s" % (bucket, type(e).__name__), case, repr(e))
+                    ctx.violation("rekey-completes", "%s:%s" % (bucket, type(e).__name__), case, "re-exchange %d: %r (client exception %r, server exception %r)" % (k + 1, e, tc.get_exception(), ts.get_exception()))
                     return False
                 sids.append((tc.session_id, ts.session_id))
             if server != "paramiko":
@@ -189,26 +268,36 @@ def run_honest(ctx, case):
         ctx.violation("wire-decodes-with-recorded-keys", "%s:exchange-count-on-wire" % bucket, case, "c2s %d s2c %d expected %d" % (len(cex), len(sex), n))
         return False
     v_c, v_s = c_chunks[0].rstrip(b"\r\n"), s_chunks[0].rstrip(b"\r\n")
-    want_key = peers.keypool()[HOSTALG[hostalg]].asbytes()
+    if c_chunks[0][-2:] != b"\r\n" or s_chunks[0][-2:] != b"\r\n":
+        raise RuntimeError("identification line not terminated by CR LF: %r %r" % (c_chunks[0], s_chunks[0]))
     for i in range(n):
+        kex_i, hostalg_i = kex, hostalg
+        if multi:
+            # what THIS exchange has to use follows from the two KEXINITs of this exchange
+            kex_i, hostalg_i = _wire_choice(cex[i]["kexinit"], sex[i]["kexinit"])
+            if kex_i is None or hostalg_i is None:
+                raise RuntimeError("plan session without a common algorithm in exchange %d: %r" % (i, case))
+            ctx.count("plan:exchange-uses:%s" % ("same-as-previous" if i and (kex_i, hostalg_i) == prev else "initial" if not i else "other-hostalg" if kex_i == prev[0] else "other-kex" if hostalg_i == prev[1] else "other-kex-and-hostalg"))
+            prev = (kex_i, hostalg_i)
+        want_key = peers.keypool()[(KEYFORALG if multi else HOSTALG)[hostalg_i]].asbytes()
         try:
-            facts = mitm.exchange_facts(kex, cex[i], sex[i])
+            facts = mitm.exchange_facts(kex_i, cex[i], sex[i])
         except R.RefError as e:
             ctx.violation("reply-well-formed", "%s:%s" % (bucket, str(e)[:30]), case, "exchange %d: %r" % (i, e))
             return False
         K, H = ckh[i]
-        ref = mitm.exchange_hash(kex, v_c, v_s, cex[i]["kexinit"], sex[i]["kexinit"], facts["k_s"], facts["mid"], K)
+        ref = mitm.exchange_hash(kex_i, v_c, v_s, cex[i]["kexinit"], sex[i]["kexinit"], facts["k_s"], facts["mid"], K)
         if ref != H:
-            ctx.violation("exchange-hash-is-rfc", "%s" % mitm.kex_family(kex) + ":" + kex, case, "exchange %d: recorded H %s, RFC hash of the wire data %s" % (i, H.hex(), ref.hex()))
+            ctx.violation("exchange-hash-is-rfc", "%s" % mitm.kex_family(kex_i) + ":" + kex_i, case, "exchange %d: recorded H %s, RFC hash of the wire data %s (V_C %r, V_S %r)" % (i, H.hex(), ref.hex(), v_c, v_s))
             return False
         ok, ktype, salg = mitm.verify_blob_signature(facts["k_s"], facts["sig"], H)
         if not ok:
             ctx.violation("signature-verifies-externally", "%s" % bucket, case, "exchange %d: key type %s signature algorithm %r does not verify over H" % (i, ktype, salg))
             return False
-        if salg != hostalg:
-            ctx.violation("signature-verifies-externally", "%s:algorithm-%s-instead-of-negotiated" % (bucket, salg), case, "exchange %d" % i)
+        if salg != hostalg_i:
+            ctx.violation("signature-verifies-externally", "%s:algorithm-%s-instead-of-negotiated" % (bucket, salg), case, "exchange %d: the KEXINITs of this exchange give %s" % (i, hostalg_i))
             return False
-        if facts["k_s"] != want_key or (i == 0 and shown != facts["k_s"]):
+        if facts["k_s"] != want_key or (i == n - 1 and shown != facts["k_s"]):
             ctx.violation("host-key-shown", "%s:differs" % bucket, case, "exchange %d" % i)
             return False
     return True
@@ -594,6 +683,26 @@ def fault_st(kex_st):
     )
 
 
+def ident_st(server):
+    soft = st.text(alphabet=IDENT_SOFT, min_size=1, max_size=24)
+    comment = st.text(alphabet=IDENT_COMMENT, min_size=0, max_size=60)
+    proto = st.sampled_from(["2.0", "2.0", "1.99"]) if server else st.just("2.0")
+    with_comment = st.tuples(proto, soft, comment).map(lambda t: "SSH-%s-%s %s" % t)
+    without = st.tuples(proto, soft).map(lambda t: "SSH-%s-%s" % t)
+    return st.one_of(st.none(), with_comment, with_comment.map(lambda v: v), without)
+
+
+def plan_step_st(kex_st):
+    return st.one_of(
+        st.none(),
+        st.fixed_dictionaries(
+            {"mode": st.sampled_from(["front", "front", "only"])},
+            optional={"kex": kex_st, "hostalg": st.sampled_from(ALLKEYALGS), "sdrop": st.just(True)},
+        ),
+        st.fixed_dictionaries({"mode": st.just("front"), "hostalg": st.sampled_from(ALLKEYALGS)}),
+    )
+
+
 def honest_st(kex_st, max_rekeys=3):
     return st.fixed_dictionaries(
         {
@@ -602,8 +711,32 @@ def honest_st(kex_st, max_rekeys=3):
             "hostalg": st.sampled_from(ALLKEYALGS),
             "rekeys": st.lists(st.sampled_from(["c", "s"]), min_size=0, max_size=max_rekeys),
             "server": st.sampled_from(["paramiko", "paramiko", "ref-uncompressed", "ref-compressed", "ref-compressed"]),
+            "ident": st.fixed_dictionaries({"c": ident_st(False), "s": ident_st(True)}),
+            "plan": st.one_of(st.none(), st.lists(plan_step_st(kex_st), min_size=max_rekeys, max_size=max_rekeys)),
         }
     )
+
+
+IDENT_FLOOR = [
+    {"s": "SSH-2.0-OpenSSH_9.6p1 Ubuntu-3ubuntu13.5"},
+    {"c": "SSH-2.0-verif_1.0 build 42 (x86_64) - test"},
+    {"c": "SSH-2.0-c+l.ient  two  spaces ", "s": "SSH-1.99-srv_0.1 x"},
+    {"s": "SSH-2.0-NoComment_7.4"},
+]
+
+
+def plan_floor():
+    """Deterministic plan sessions: every host key algorithm as the target of a change, both modes,
+    either initiator, one and two re-exchanges, kex changed as well in some."""
+    out = []
+    for i, h in enumerate(ALLKEYALGS):
+        h0 = ALLKEYALGS[(i + 2) % 7]
+        out.append({"kind": "honest", "kex": CHEAPISH[i % len(CHEAPISH)], "hostalg": h0, "rekeys": ["c", "s"][i % 2 :][:1], "plan": [{"mode": "front", "hostalg": h}]})
+    out.append({"kind": "honest", "kex": CHEAP[0], "hostalg": "rsa-sha2-512", "rekeys": ["s", "c"], "plan": [{"mode": "front", "hostalg": "rsa-sha2-256"}, {"mode": "front", "hostalg": "rsa-sha2-512"}]})
+    out.append({"kind": "honest", "kex": CHEAP[1], "hostalg": "ecdsa-sha2-nistp256", "rekeys": ["c", "c"], "plan": [{"mode": "only", "hostalg": "ssh-ed25519", "kex": CHEAP[0]}, {"mode": "front", "kex": CHEAP[3]}]})
+    out.append({"kind": "honest", "kex": CHEAP[0], "hostalg": "ssh-ed25519", "rekeys": ["s"], "plan": [{"mode": "front", "hostalg": "ecdsa-sha2-nistp384", "sdrop": True}], "ident": IDENT_FLOOR[0]})
+    out.append({"kind": "honest", "kex": CHEAP[2], "hostalg": "ssh-rsa", "rekeys": ["c", "s"], "plan": [None, {"mode": "front", "hostalg": "rsa-sha2-256", "kex": CHEAP[1]}], "server": "ref-uncompressed"})
+    return out
 
 
 def _dispatch(ctx, case):
@@ -682,10 +815,18 @@ def run(ctx):
                 combos.append((k, h, ["c", "s"][: 1 + j % 2], "paramiko"))
                 if k in CURVES:
                     combos.append((k, h, ["s", "c"][: 1 + j % 2], ["ref-compressed", "ref-uncompressed"][j % 2]))
-    for kex, hostalg, rk, server in combos:
+    for j, (kex, hostalg, rk, server) in enumerate(combos):
         if ctx.out_of_time():
             break
-        run_honest(ctx, {"kind": "honest", "kex": kex, "hostalg": hostalg, "rekeys": rk, "server": server})
+        c = {"kind": "honest", "kex": kex, "hostalg": hostalg, "rekeys": rk, "server": server}
+        if j % 3 == 1:  # identification strings are an input of H: every third floor session sends non-default ones
+            c["ident"] = IDENT_FLOOR[(j // 3) % len(IDENT_FLOOR)]
+        run_honest(ctx, c)
+    for j, c in enumerate(plan_floor()):
+        if ctx.out_of_time():
+            break
+        if j % ctx.nworkers == ctx.worker:
+            run_honest(ctx, c)
     for j, c in enumerate(fault_floor()):
         if ctx.out_of_time():
             break
